@@ -237,8 +237,15 @@ func c06Strlen(e *Engine, res *EpisodeResult) {
 		skip bool
 	}
 	var cells []cell
-	for _, S := range c06Grid {
-		for _, Y := range c06Grid {
+	gridS, gridY := c06Grid, c06Grid
+	if s1, ok := p.Params["gridS1"]; ok {
+		// maxima drawn per plan besides the fixed ones (ascending order is not needed: the
+		// monotonicity oracle below compares every pair of cells)
+		gridS = append(append([]int{}, c06Grid...), int(s1), int(p.Params["gridS2"]))
+		gridY = []int{8, 64, 0, int(p.Params["gridY1"])}
+	}
+	for _, S := range gridS {
+		for _, Y := range gridY {
 			tengo.MaxStringLen, tengo.MaxBytesLen = defS, defB
 			if S > 0 {
 				tengo.MaxStringLen = S
